@@ -16,10 +16,12 @@ package mlkem
 
 import (
 	"bytes"
+	"compress/gzip"
 	"crypto/sha256"
 	"encoding/hex"
 	"encoding/json"
 	"fmt"
+	"io"
 	"math/big"
 	"os"
 	"path/filepath"
@@ -30,6 +32,32 @@ import (
 	"github.com/cloudflare/circl/internal/verifmc"
 	ref "github.com/cloudflare/circl/internal/verifref/mlkem"
 )
+
+// c03Hex / c03ReadGzip: own copies, so that this file does not depend on the helpers of the
+// repository's acvp_test.go (a harness file must survive refactorings of the tree under test).
+type c03Hex []byte
+
+func (b *c03Hex) UnmarshalJSON(data []byte) (err error) {
+	var s string
+	if err = json.Unmarshal(data, &s); err != nil {
+		return err
+	}
+	*b, err = hex.DecodeString(s)
+	return err
+}
+
+func c03ReadGzip(path string) ([]byte, error) {
+	f, err := os.Open(path)
+	if err != nil {
+		return nil, err
+	}
+	defer f.Close()
+	z, err := gzip.NewReader(f)
+	if err != nil {
+		return nil, err
+	}
+	return io.ReadAll(z)
+}
 
 func c03ParamsByName(name string) *ref.Params {
 	switch {
@@ -44,7 +72,7 @@ func c03ParamsByName(name string) *ref.Params {
 }
 
 func c03LoadACVP(t *testing.T, sub string) (prompt []json.RawMessage, results map[int]json.RawMessage) {
-	buf, err := readGzip("testdata/ML-KEM-" + sub + "-FIPS203/prompt.json.gz")
+	buf, err := c03ReadGzip("testdata/ML-KEM-" + sub + "-FIPS203/prompt.json.gz")
 	if err != nil {
 		t.Fatal(err)
 	}
@@ -54,7 +82,7 @@ func c03LoadACVP(t *testing.T, sub string) (prompt []json.RawMessage, results ma
 	if err := json.Unmarshal(buf, &p); err != nil {
 		t.Fatal(err)
 	}
-	buf, err = readGzip("testdata/ML-KEM-" + sub + "-FIPS203/expectedResults.json.gz")
+	buf, err = c03ReadGzip("testdata/ML-KEM-" + sub + "-FIPS203/expectedResults.json.gz")
 	if err != nil {
 		t.Fatal(err)
 	}
@@ -93,9 +121,9 @@ func TestVerifC03_refcheck(t *testing.T) {
 		var g struct {
 			ParameterSet string `json:"parameterSet"`
 			Tests        []struct {
-				TcID int      `json:"tcId"`
-				Z    HexBytes `json:"z"`
-				D    HexBytes `json:"d"`
+				TcID int    `json:"tcId"`
+				Z    c03Hex `json:"z"`
+				D    c03Hex `json:"d"`
 			}
 		}
 		if err := json.Unmarshal(raw, &g); err != nil {
@@ -104,8 +132,8 @@ func TestVerifC03_refcheck(t *testing.T) {
 		p := c03ParamsByName(g.ParameterSet)
 		for _, tc := range g.Tests {
 			var want struct {
-				Ek HexBytes `json:"ek"`
-				Dk HexBytes `json:"dk"`
+				Ek c03Hex `json:"ek"`
+				Dk c03Hex `json:"dk"`
 			}
 			if err := json.Unmarshal(results[tc.TcID], &want); err != nil {
 				t.Fatal(err)
@@ -125,14 +153,14 @@ func TestVerifC03_refcheck(t *testing.T) {
 	groups, results = c03LoadACVP(t, "encapDecap")
 	for _, raw := range groups {
 		var g struct {
-			TestType     string   `json:"testType"`
-			ParameterSet string   `json:"parameterSet"`
-			Dk           HexBytes `json:"dk"`
+			TestType     string `json:"testType"`
+			ParameterSet string `json:"parameterSet"`
+			Dk           c03Hex `json:"dk"`
 			Tests        []struct {
-				TcID int      `json:"tcId"`
-				Ek   HexBytes `json:"ek"`
-				M    HexBytes `json:"m"`
-				C    HexBytes `json:"c"`
+				TcID int    `json:"tcId"`
+				Ek   c03Hex `json:"ek"`
+				M    c03Hex `json:"m"`
+				C    c03Hex `json:"c"`
 			}
 		}
 		if err := json.Unmarshal(raw, &g); err != nil {
@@ -141,8 +169,8 @@ func TestVerifC03_refcheck(t *testing.T) {
 		p := c03ParamsByName(g.ParameterSet)
 		for _, tc := range g.Tests {
 			var want struct {
-				C HexBytes `json:"c"`
-				K HexBytes `json:"k"`
+				C c03Hex `json:"c"`
+				K c03Hex `json:"k"`
 			}
 			if err := json.Unmarshal(results[tc.TcID], &want); err != nil {
 				t.Fatal(err)
@@ -295,8 +323,8 @@ func TestVerifC03_refcheck(t *testing.T) {
 	if raw, err := os.ReadFile(fx); err == nil {
 		var cases []struct {
 			K                   int
-			D, Z, M, Ek, Ct, Ss HexBytes
-			BadCt, BadSs        HexBytes
+			D, Z, M, Ek, Ct, Ss c03Hex
+			BadCt, BadSs        c03Hex
 		}
 		if err := json.Unmarshal(raw, &cases); err != nil {
 			t.Fatalf("fixture %s: %v", fx, err)
